@@ -198,6 +198,48 @@ def narrow(c):
             p.case = cs + ["# side conditions of the known pattern do not hold"]
 
 
+def triage_diff(c, ops_f, impl_f, model_f, hbin, exe, per_sig, total):
+    """vcheck.diff shrinks only the first few failing cases; with three known findings in the unchanged tree the first
+    few are all of one kind.  So: count everything with max_report=0, then group the failing cases by a signature of
+    their first failing line (case kind, op word, skeleton of the implementation's result, model agrees?) and shrink
+    `per_sig` cases of EVERY signature — a new kind of violation cannot hide behind the known ones."""
+    c.diff(ops_f, impl_f, model_f, stateful=True, hbin=hbin, exe=exe, max_report=0)
+    ops = open(ops_f).read().splitlines()
+    impl = open(impl_f).read().splitlines()
+    model = open(model_f).read().splitlines()
+    n = min(len(ops), len(impl), len(model))
+    groups = {}
+    for (a, b) in vcheck.split_cases(ops[:n]):
+        first = next((i for i in range(a, b) if not ops[i].startswith("#") and
+                      (impl[i] != model[i] or impl[i].startswith("FAIL") or impl[i].startswith("panic"))), None)
+        if first is None:
+            continue
+        kind = (ops[a].split() + ["", "", ""])[3] if ops[a].startswith("# case") else ""
+        skel = " ".join(re.findall(r"FAIL|panic[:\w-]*|art=|rbt=|cleanup|revert|len|size|want|got|keys|lost-key|snapshot[\w-]*|handle[\w-]*"
+                                   r"|iterator[\w-]*|err:[\w-]+|notfound|refused|bad-cp|bad-op|ok|valid|caught|nomatch|true|false", impl[first])[:10])
+        sig = (kind.split("-")[0], ops[first].split()[0], skel, impl[first] == model[first])
+        groups.setdefault(sig, []).append((a, b))
+    c.cov["failing_case_signatures"] = {" | ".join(map(str, k)): len(v) for k, v in sorted(groups.items(), key=lambda kv: str(kv[0]))}
+    chosen = []
+    for sig in sorted(groups, key=str):
+        chosen += groups[sig][:per_sig]
+    chosen = sorted(chosen)[:total] if len(chosen) <= total else sorted(sorted(chosen, key=lambda ab: ab[1] - ab[0])[:total])
+    if not chosen:
+        return
+    fo, fi, fm = (os.path.join(c.work, "triage." + x) for x in ("ops", "impl", "model"))
+    with open(fo, "w") as o, open(fi, "w") as i_, open(fm, "w") as m_:
+        for (a, b) in chosen:
+            o.write("\n".join(ops[a:b]) + "\n")
+            i_.write("\n".join(impl[a:b]) + "\n")
+            m_.write("\n".join(model[a:b]) + "\n")
+    saved = {k: (list(v) if isinstance(v, list) else v) for k, v in c.cov.items()}
+    c.diff(fo, fi, fm, stateful=True, hbin=hbin, exe=exe, max_report=len(chosen))
+    for k in ("evaluations", "traces_validated_against_impl", "distinct_nontrivial", "disagreements_checked", "property_op_failures", "samples"):
+        if k in saved:
+            c.cov[k] = saved[k]
+    c.cov["failing_cases_shrunk"] = len(chosen)
+
+
 def reclassify(c):
     """A shrunk case whose implementation line shows the two trees disagreeing with each other (`art=… rbt=…`) or a
     per-tree oracle verdict `FAIL` is a concrete failing input of C08 (observational equivalence / undo oracle) on the
@@ -227,7 +269,7 @@ def run(a):
                 c.cov["input_distribution"] = st
                 m = c.run_model(exe, ops)
                 if m:
-                    c.diff(ops, impl, m, stateful=True, hbin=hbin, exe=exe)
+                    triage_diff(c, ops, impl, m, hbin, exe, per_sig=(1 if a.tier == "quick" else 3), total=(24 if a.tier == "quick" else 60))
                     reclassify(c)
                     narrow(c)
                     c.cov["programs"] = sum(1 for l in open(ops) if l.startswith("# case"))
